@@ -159,6 +159,10 @@ pub fn run(tier: Tier) -> i32 {
             let t = make_tokenizer(d, opts).unwrap();
             let order = rd.unk_order();
             let mut classes: HashMap<String, (String, Key, u32)> = HashMap::new();
+            // the same sentences on ONE reused worker, in enumeration order and (afterwards) in
+            // reverse order: re-spacing must not matter there either
+            let mut reused = t.new_worker();
+            let mut fresh_keys: Vec<Option<Key>> = Vec::with_capacity(sentences.len());
             for s in &sentences {
                 st.states += 1;
                 if !s.is_empty() {
@@ -172,11 +176,30 @@ pub fn run(tier: Tier) -> i32 {
                             what: format!("tokenize panicked: {p} [{} {:?} {:?}]", u.name, opts, s),
                             replay: json!({"kind": "tokenize", "dictionary": u.describe(), "sentence": s, "ignore_space": true, "max_grouping_len": opts.mgl}),
                         });
+                        fresh_keys.push(None);
                         continue;
                     }
                 };
                 let nf = normal_form(s);
                 let k = key(&run.tokens);
+                fresh_keys.push(Some(k.clone()));
+                {
+                    let w = &mut reused;
+                    let r = guard(|| {
+                        w.reset_sentence(s);
+                        w.tokenize();
+                        key(&read_tokens(w))
+                    });
+                    st.count("sentences_on_a_reused_worker");
+                    if r.as_ref().ok() != Some(&k) {
+                        st.violation(Finding {
+                            class: "reused-worker-respacing-changes-tokens".into(),
+                            what: format!("{:?} on a reused worker (after the preceding sentences of the enumeration) gives {:?}, on a fresh worker {:?} [{} {:?}]", s, r.as_ref().map(|k| k.iter().map(|x| (&x.0, x.5)).collect::<Vec<_>>()), k.iter().map(|x| (&x.0, x.5)).collect::<Vec<_>>(), u.name, opts),
+                            replay: json!({"kind": "tokenize", "dictionary": u.describe(), "sentence": s, "ignore_space": true, "max_grouping_len": opts.mgl, "note": "reused worker, enumeration order"}),
+                        });
+                        reused = t.new_worker();
+                    }
+                }
                 // space characters are skipped, never tokenized
                 if run.tokens.iter().any(|t| t.surface.chars().any(is_space)) {
                     st.violation(Finding {
@@ -230,6 +253,32 @@ pub fn run(tier: Tier) -> i32 {
                                 replay: json!({"kind": "tokenize_pair", "dictionary": u.describe(), "sentence": s, "other_sentence": first, "ignore_space": true, "max_grouping_len": opts.mgl}),
                             });
                         }
+                    }
+                }
+            }
+            // reverse order (longer sentences first) on one worker
+            {
+                let mut reused = t.new_worker();
+                let mut reported = 0;
+                for (s, fk) in sentences.iter().zip(&fresh_keys).rev() {
+                    let Some(fk) = fk else { continue };
+                    let w = &mut reused;
+                    let r = guard(|| {
+                        w.reset_sentence(s);
+                        w.tokenize();
+                        key(&read_tokens(w))
+                    });
+                    st.count("sentences_on_a_reused_worker");
+                    if r.as_ref().ok() != Some(fk) {
+                        if reported < 3 {
+                            st.violation(Finding {
+                                class: "reused-worker-respacing-changes-tokens".into(),
+                                what: format!("{:?} on a reused worker (after longer sentences) gives {:?}, on a fresh worker {:?} [{} {:?}]", s, r.as_ref().map(|k| k.iter().map(|x| (&x.0, x.5)).collect::<Vec<_>>()), fk.iter().map(|x| (&x.0, x.5)).collect::<Vec<_>>(), u.name, opts),
+                                replay: json!({"kind": "tokenize", "dictionary": u.describe(), "sentence": s, "ignore_space": true, "max_grouping_len": opts.mgl, "note": "reused worker, reverse enumeration order"}),
+                            });
+                        }
+                        reported += 1;
+                        reused = t.new_worker();
                     }
                 }
             }
@@ -295,7 +344,7 @@ pub fn run(tier: Tier) -> i32 {
             });
         }
     }
-    rep.rule = format!("state = (dictionary meeting C12's precondition (half of them with a user lexicon), max_grouping_len, sentence over {{a,b,c,U+0020,U+3000}} of length <= {max_len}); sentences are grouped by space-normal form and every member of a class must yield the same (surface, feature, word cost, ids, total cost, lexicon type) sequence; the first member of each class is also checked against the reference minimum; distinct = distinct (dictionary, options, class token sequence)");
+    rep.rule = format!("state = (dictionary meeting C12's precondition (half of them with a user lexicon), max_grouping_len, sentence over {{a,b,c,U+0020,U+3000}} of length <= {max_len}); sentences are grouped by space-normal form and every member of a class must yield the same (surface, feature, word cost, ids, total cost, lexicon type) sequence; the first member of each class is also checked against the reference minimum; every sentence is also tokenized on one reused worker, in enumeration order and in reverse order, and must give the fresh-worker tokens; distinct = distinct (dictionary, options, class token sequence)");
     rep.bounds = json!({"max_sentence_len": max_len, "universes": us.len()});
     rep.finish(
         st,
@@ -307,6 +356,7 @@ pub fn run(tier: Tier) -> i32 {
             "ignore_space_without_SPACE_category",
             "dictionaries_with_space_runs_beyond_255",
             "user_words_right_after_a_gap",
+            "sentences_on_a_reused_worker",
         ],
     )
 }
